@@ -107,6 +107,11 @@ class Composition(object):
         """Enable the len() function."""
         return len(self.tracks)
 
+    def __eq__(self, other):
+        """Enable the '==' operator for compositions: equal tracks in the
+        same order (as Track does for its bars)."""
+        return self.tracks == other.tracks
+
     def __repr__(self):
         """Return a string representing the class."""
         result = ""
